@@ -28,6 +28,8 @@ KV_TEXT = {
     # values with separators inside brackets: call arguments, a closure body, a vec! literal
     "callcomma": "{k} = std::cmp::max(x, y)", "closureval": "{k} = Some(x).map(|v| {{ let w = v; w + 1 }}).unwrap_or(0)",
     "vecval": "{k} = vec![x, y].len()",
+    # a bracketed group whose string argument contains a closing bracket, separators and quotes
+    "callstrparen": '{k} = z.contains(r#") stop; "x", then"#)',
     "dbg": "{k}:? = x", "debug": "{k}:debug = x", "disp": "{k}:% = x", "display": "{k}:display = x",
     "shortdbg": "x:?", "err": "{k}:err = e", "sval": "{k}:sval = x", "serde": "{k}:serde = x",
     "ref=7": "ref = 7", "ref=0": "ref = 0", "ref=max": "ref = 4294967295", "ref=07": "ref = 07", "ref=x": "ref = x",
